@@ -45,7 +45,7 @@ func hashAllow(salt uint64) func(string) bool {
 	}
 }
 
-var c05Names = []string{"a", "a/b", "a/b/c", "ab", "b", "b/blobs", "c/manifests/d", "d-e", "d.e", "d_e", "e/tags", "f", "f0", "f1/g", "g", "h/i/j/k", "i", "j", "k9", "l", "m", "n", "o", "p", "q", "z"}
+var c05Names = []string{"a", "a-1", "a.x", "a/b", "a/b/c", "ab", "b", "b/blobs", "c/manifests/d", "d-e", "d.e", "d_e", "e/tags", "f", "f0", "f1/g", "g", "h/i/j/k", "i", "j", "k9", "l", "m", "n", "o", "p", "q", "z"}
 
 func c05(env *core.Env, unify bool) {
 	c := env.C
@@ -371,7 +371,14 @@ func c05(env *core.Env, unify bool) {
 	start := ""
 	startClass := "none"
 	if what != "Referrers" {
-		switch c.Weighted("start", []int{4, 3, 2, 1, 1}) {
+		switch c.Weighted("start", []int{4, 3, 2, 1, 1, 1}) {
+		case 5:
+			// a start point is a string to compare with, not a path: forms that a path
+			// cleaner would rewrite ("a/" sorts after "a-1" and "a.x", "a" before them)
+			if len(view) > 0 {
+				e := view[c.Int("start.unclean", len(view))]
+				start, startClass = []string{e + "/", e + "/.", e + "//", e + "/x/..", "./" + e, e + "/../" + e}[c.Int("start.unclean.form", 6)], "unclean"
+			}
 		case 1:
 			if len(view) > 0 {
 				start, startClass = view[c.Int("start.eq", len(view))], "equal"
